@@ -19,8 +19,13 @@ def _base(c, L, fp):
     iso.add_fp(fp, L[0], **fkw(c, 'AAA'))
     iso.add_directory(**dkw(c, 'DIR1'))
     iso.add_fp(fp, L[1], **fkw(c, 'CCC', '/DIR1'))
-    if RECIPE.startswith('el_'):
+    if RECIPE.startswith('el_') or RECIPE.startswith('elx_'):
         iso.add_fp(skel.BootFP(), 2048, **fkw(c, 'BOOT'))
+    if RECIPE.startswith('elx_'):
+        # refusals on an image that already HAS El Torito (+ a hard link to the boot file)
+        iso.add_eltorito('/BOOT.;1', bootcatfile='/BOOT.CAT;1', rr_bootcatname='boot.cat' if c['rr'] else None,
+                         joliet_bootcatfile='/boot.cat' if c['joliet'] else None, udf_bootcatfile='/boot.cat' if c['udf'] else None)
+        iso.add_hard_link(iso_old_path='/BOOT.;1', iso_new_path='/DIR1/BOOTLNK.;1', rr_name='bootlnk' if c['rr'] else None)
     return iso
 
 
@@ -80,6 +85,14 @@ def recipes(c):
     r['el_bootcat_missing_parent'] = (lambda iso, fp: iso.add_eltorito('/BOOT.;1', bootcatfile='/NODIR/BOOT.CAT;1', rr_bootcatname=_rr(c, 'boot.cat')), True)
     r['el_rm_none'] = (lambda iso, fp: iso.rm_eltorito(), True)
     r['el_hybrid_none'] = (lambda iso, fp: iso.add_isohybrid(), True)
+    r['elx_rm_boot_file'] = (lambda iso, fp: iso.rm_file(iso_path='/BOOT.;1'), True)
+    r['elx_rm_boot_file_by_link'] = (lambda iso, fp: iso.rm_file(iso_path='/DIR1/BOOTLNK.;1'), True)
+    r['elx_rm_boot_file_joliet'] = (lambda iso, fp: iso.rm_file(joliet_path='/boot'), J)
+    r['elx_rm_boot_file_udf'] = (lambda iso, fp: iso.rm_file(udf_path='/boot'), U)
+    r['elx_rm_bootcat'] = (lambda iso, fp: iso.rm_file(iso_path='/BOOT.CAT;1'), True)
+    r['elx_rm_bootcat_link'] = (lambda iso, fp: iso.rm_hard_link(iso_path='/BOOT.CAT;1'), True)
+    r['elx_add_eltorito_dup_catalog'] = (lambda iso, fp: iso.add_eltorito('/AAA.;1', bootcatfile='/OTHER.CAT;1'), True)
+    r['elx_rm_dir_with_link'] = (lambda iso, fp: iso.rm_directory(**dkw(c, 'DIR1')), True)
     r['set_hidden_missing'] = (lambda iso, fp: iso.set_hidden(iso_path='/NOPE.;1'), True)
     return r
 
